@@ -1,4 +1,5 @@
 import OFCore.Props.C18
+import OFCore.Lemmas.EngineTrace
 /-!
 # C17 — tracing and storage settings never change results
 
@@ -66,5 +67,22 @@ theorem C17_stack_empty_always (sys : Sys P) (n : Nat) : ∀ (ks : List (Node P)
         simp only [Option.some.injEq, Prod.mk.injEq] at h
         rw [← h.2]
         exact ih s1 rs2 s2 (C17_stack_empty sys n s hs k r g s1 hr) hrs
+
+/-- The recorded trace: the instrumented evaluator `runET` computes exactly what the machine
+    computes and records, in order, exactly the variable-at-period reads of the formula — all of
+    them, each with a value, when the calculation completes; a prefix ending at the failed read
+    otherwise.  (`FullTracer` opens one child per `Simulation.calculate`; that the real tracer's
+    children are these reads is checked by the correspondence against `readsOf`.) -/
+theorem C17_trace_reads (sys : Sys P) (n : Nat) (e : Expr P) (s : St P) (r : Res) (g : Bool) (s' : St P)
+    (t : List (Node P × Res)) (h : runET sys n s e = some (r, g, s', t)) :
+    runE sys n s e = some (r, g, s') ∧ (t.map (·.1)) <+: refs e ∧
+    ((∃ x, r = .ok x) → t.map (·.1) = refs e ∧ ∀ kr ∈ t, ∃ y, kr.2 = .ok y) := by
+  have he := runET_erase sys n e s
+  rw [h] at he
+  exact ⟨he.symm, runET_reads sys n e s r g s' t h⟩
+
+example : runET (faultySys false) 5 St.init (.op2 0 (.ref 0 0) (.ref 1 0)) =
+    some (.ok [21], false, ⟨[((1, 0), ([11], false))], [], []⟩, [((0, 0), .ok [10]), ((1, 0), .ok [11])]) := by
+  simp [runET, run, runE, faultySys, lookup, store, St.init]
 
 end OFCore
